@@ -466,7 +466,7 @@ type c14cStruct struct {
 	win   map[string][2]int // name -> (digest index, version)
 	inl   []map[string][2]int
 	ext   []int        // global slot numbers
-	clash map[int]bool // legacy digests listed under a name that another body of the document uses for a different legacy digest
+	clash map[int]bool // legacy digests listed under a name that another body of the document uses for a different legacy digest (only used to name the signature of a safety failure)
 }
 
 func (e *c14cEnv) parseAtts(v any) map[string][2]int {
@@ -665,7 +665,6 @@ func c14cRunCase(t *testing.T, rec *vRecorder, caseN int, stream string, c c14cC
 	refs := e.readRefs(&c, runs, obs, "before the first run")
 	// self-check: the legacy digests a reader reaches through the leaves of a document are those its stored
 	// revision bodies list (what C14/Compaction.v calls referenced)
-	clashAny := false
 	for di, st := range docs {
 		want := map[int]bool{}
 		add := func(m map[string][2]int) {
@@ -690,9 +689,6 @@ func c14cRunCase(t *testing.T, rec *vRecorder, caseN int, stream string, c c14cC
 		}
 		if fmt.Sprint(want) != fmt.Sprint(got) {
 			e.fail("compaction_selfcheck", "compaction-corpus-selfcheck", input(), fmt.Sprintf("document %d: stored bodies list legacy digests %v, the read path reaches %v", di, want, got))
-		}
-		if len(st.clash) > 0 {
-			clashAny = true
 		}
 		if !st.flag && (len(st.inl) > 0 || len(st.ext) > 0) {
 			for _, m := range append(append([]map[string][2]int{}, st.inl...), func() []map[string][2]int {
@@ -763,7 +759,7 @@ func c14cRunCase(t *testing.T, rec *vRecorder, caseN int, stream string, c c14cC
 			e.fail("compaction_dry_run", "compaction-dry-run-purged", input(), fmt.Sprintf("run %d (dry): before %v, after %v", ri+1, before, o.Remain))
 		}
 		// compaction_cleanup: fault-free, completed, real run with a new id: exactly the unreferenced ones are gone
-		if completed && !resumed && !r.Dry && len(r.ReadFail)+len(r.StampFail) == 0 && !clashAny {
+		if completed && !resumed && !r.Dry && len(r.ReadFail)+len(r.StampFail) == 0 {
 			for _, g := range before {
 				referenced := false
 				for _, ref := range refs {
@@ -785,7 +781,7 @@ func c14cRunCase(t *testing.T, rec *vRecorder, caseN int, stream string, c c14cC
 			}
 		}
 		// compaction_idempotent
-		if prevCompletedLive && !clashAny && (!c14cSame(before, o.Remain) || (completed && o.Purged != 0)) {
+		if prevCompletedLive && (!c14cSame(before, o.Remain) || (completed && o.Purged != 0)) {
 			e.fail("compaction_idempotent", "compaction-not-idempotent", input(), fmt.Sprintf("run %d follows a completed run and purged %d (before %v, after %v)", ri+1, o.Purged, before, o.Remain))
 		}
 		if len(r.ReadFail)+len(r.StampFail) > 0 || resumed || o.Purged > 0 {
@@ -887,12 +883,17 @@ func c14cCorpusCases() []struct {
 			{Win: []c14cAtt{A(0, 1), {Name: 1, Dig: 2, V2: true}}, Others: []c14cLeaf{{Atts: []c14cAtt{A(1, 3)}, Ext: true, Missing: true}}},
 			{Win: []c14cAtt{A(0, 4)}}}, Present: []int{1, 2, 3}},
 			[]c14cRun{{Reset: true, ReadFail: []int{0}}, {Reset: true}, {Reset: true}}},
-		// finding: the same attachment name on the winner and on a non-winning leaf, different content
+		// the same attachment name on several bodies of one document, different content (the defect repaired by commit
+		// 360f98e: the mark map was keyed by the name; signature compaction-same-name-leaf-attachment-unmarked)
 		{"same-name-winner-and-leaf", c14cCorpus{Docs: []c14cDoc{{Win: []c14cAtt{A(0, 1)}, Others: []c14cLeaf{{Atts: []c14cAtt{A(0, 2)}}}}}, Present: []int{1, 2}},
 			[]c14cRun{{Reset: true}}},
 		{"same-name-inline-and-out-of-line", c14cCorpus{Docs: []c14cDoc{{Win: nil, Others: []c14cLeaf{{Atts: []c14cAtt{A(1, 1)}}, {Atts: []c14cAtt{A(1, 2)}, Ext: true}}}}, Present: []int{1, 2}},
 			[]c14cRun{{Reset: true}}},
-		// finding: start again (no reset) after a mark phase that failed
+		{"same-name-two-inline-leaves", c14cCorpus{Docs: []c14cDoc{{Win: []c14cAtt{A(2, 3)}, Others: []c14cLeaf{{Atts: []c14cAtt{A(0, 1)}}, {Atts: []c14cAtt{A(0, 2)}}}}}, Present: []int{1, 2, 3, 4}},
+			[]c14cRun{{Reset: true, StampFail: []int{2}}, {Reset: true}, {}}},
+		{"same-name-two-out-of-line-leaves", c14cCorpus{Docs: []c14cDoc{{Win: []c14cAtt{A(0, 3)}, Others: []c14cLeaf{{Atts: []c14cAtt{A(0, 1), A(1, 4)}, Ext: true}, {Atts: []c14cAtt{A(0, 2), A(1, 5)}, Ext: true}}}}, Present: []int{1, 2, 3, 4, 5}},
+			[]c14cRun{{Reset: true, ReadFail: []int{1}}, {Reset: true}, {}}},
+		// known finding: start again (no reset) after a mark phase that failed
 		{"resume-after-failed-read", mixed, []c14cRun{{Reset: true, ReadFail: []int{0}}, {}, {Reset: true}}},
 		{"resume-after-failed-stamp", c14cCorpus{Docs: []c14cDoc{{Win: []c14cAtt{A(0, 1)}}, {Win: []c14cAtt{A(0, 2)}}, {Win: []c14cAtt{A(0, 3)}}}, Present: []int{1, 2, 3, 4}},
 			[]c14cRun{{Reset: true, StampFail: []int{2}}, {}, {}}},
@@ -957,18 +958,8 @@ func c14cRandomCorpus(r *vRand) c14cCorpus {
 				d.Others = append(d.Others, c14cLeaf{Deleted: true})
 			}
 		}
-		// Go map iteration order decides between two non-winning bodies of the same storage kind that use one name for
-		// different legacy digests: not generated (winner vs leaf and inline vs out-of-line are deterministic)
-		if len(d.Others) == 2 && d.Others[0].Ext == d.Others[1].Ext {
-			for i0 := range d.Others[0].Atts {
-				for i1 := range d.Others[1].Atts {
-					a0, a1 := d.Others[0].Atts[i0], &d.Others[1].Atts[i1]
-					if a0.Name == a1.Name && !a0.V2 && !a1.V2 {
-						a1.Dig = a0.Dig
-					}
-				}
-			}
-		}
+		// (the same attachment name on several bodies of a document, same storage kind or not, is generated freely: since
+		// commit 360f98e the mark map is keyed by the data document id and the outcome does not depend on map order)
 		c.Docs = append(c.Docs, d)
 	}
 	for g := 1; g <= 5; g++ {
